@@ -182,6 +182,18 @@ def run(ctx):
                              "builds %s = %r%s, but the sequential loop %s %r: they differ for some header values (a run-time empty or short range launches a wrong number of work items / maps an index to a value the loop never takes)"
                              % (show(t), got, extra, "runs" if what == "count" else "takes as its k-th value", want))
                 # an invalid header yields no expression at all
+    # the hardware index (unsigned 32-bit on CUDA / HIP / Metal) is converted to the iterator's type before it enters the arithmetic
+    mp = mdvf.d["params"][0]["d"]
+    uses = [n for n in mdvf.walk() if n["k"] == "DeclRefExpr" and n.get("d") == mp]
+    conv = True
+    for u in uses:
+        anc = [a for a in mdvf.ancestors(u) if a["k"] in ("CXXConstructExpr", "CXXTemporaryObjectExpr") or a["k"] == "VarDecl"]
+        cast = [a for a in anc if a["k"] != "VarDecl" and callee(a) == NS.replace("okl::", "") + "parenCastNode::parenCastNode"]
+        okc = bool(cast) and "iterator" in noid(render(kids(cast[0])[1], False)) and "vartype" in noid(render(kids(cast[0])[1], False))
+        conv = conv and okc
+    R.ob("C17-R5", conv and bool(uses), mdvf.q, "hardware index converted to the iterator's type first", mdvf.site(uses[0]) if uses else mdvf.relfile,
+         "every use of the index is the operand of a cast to iterator->vartype" if conv and uses else
+         "the thread / block id enters the arithmetic as it is: with a 64-bit iterator `long i = -3 + blockIdx.x` is computed modulo 2^32 (block 0 gets 4294967293)")
     for f in (gic, mdvf):
         t = Builder(prog, f, fields, {"this->valid": False}, {"magicIterator": "index"}).result()
         R.ob("C17-R5", t == ("null",), f.q, "invalid header -> NULL", "%s:%d" % (f.relfile, f.d["line"]), "no count / mapping is produced for an unvalidated header", nontrivial=False)
